@@ -137,13 +137,14 @@ type Exec struct {
 	globals    map[*ssa.Global]*Value
 	pkgInit    map[*ssa.Package]bool
 
-	steps    int
-	maxSteps int
-	depth    int
-	lenient  int
-	curInit  *ssa.Function
-	spec     int
-	noMerge  bool
+	steps     int
+	maxSteps  int
+	depth     int
+	lenient   int
+	forceBody int
+	curInit   *ssa.Function
+	spec      int
+	noMerge   bool
 
 	byteConst [256]*smt.Term
 
@@ -1164,8 +1165,8 @@ func (e *Exec) runMain(fn *ssa.Function) (end pathEnd) {
 // RunConcrete executes the harness once with fixed inputs (no solver): the
 // concrete-engine mode used to replay counterexamples of stub-based harnesses.
 // It returns how the path ended and, for violations, the failing label.
-func RunConcrete(p *Program, fn *ssa.Function, inputs map[string]uint64, tier int) (end string, label string) {
-	x := &Explorer{P: p, Harness: fn, Tier: tier}
+func RunConcrete(p *Program, fn *ssa.Function, inputs map[string]uint64, tier int, reverseMaps bool) (end string, label string) {
+	x := &Explorer{P: p, Harness: fn, Tier: tier, Reverse: reverseMaps}
 	x.cond = sync.NewCond(&x.mu)
 	w := &Worker{id: 0, x: x, ctx: smt.NewCtx()}
 	w.st.Reach = map[string]int{}
